@@ -730,7 +730,7 @@ func userForestCase(c *core.Ctx, i int, r *rand.Rand) {
 
 // brokenForest generates a dictionary with one injected inconsistency.
 func brokenForest(i int, r *rand.Rand) (forest, string, bool) {
-	kinds := []string{"dangling-attr", "dangling-extends", "cycle1", "cycle2", "cycle3", "cycle4", "cycle5", "unnamed-chord", "unnamed-attr", "tail1", "tail2", "tail3", "shadowed-dangling-extends", "shadowed-dangling-attr", "unnamed-chord-with-display"}
+	kinds := []string{"dangling-attr", "dangling-extends", "cycle1", "cycle2", "cycle3", "cycle4", "cycle5", "unnamed-chord", "unnamed-attr", "tail1", "tail2", "tail3", "shadowed-dangling-extends", "shadowed-dangling-attr", "unnamed-chord-with-display", "shadowed-cycle1", "shadowed-cycle2"}
 	kind := kinds[i%len(kinds)]
 	used := (i/len(kinds))%2 == 0
 	f := genForest(r, "b")
@@ -761,6 +761,17 @@ func brokenForest(i int, r *rand.Rand) (forest, string, bool) {
 			broken.Attrs = []string{"NoSuchAttribute"}
 		}
 		f.chords = append(f.chords, userChord{Name: "Zbroken", Display: "zbrokennew", Attrs: []string{f.attrs[0].Name}})
+	case "shadowed-cycle1", "shadowed-cycle2":
+		// a cycle that runs through display symbols of entries whose name a later entry reuses
+		broken.Display = "zbrokenold"
+		broken.Attrs = []string{f.attrs[0].Name}
+		f.chords = append(f.chords, userChord{Name: "Zbroken", Display: "zbrokennew", Attrs: []string{f.attrs[0].Name}})
+		if kind == "shadowed-cycle1" {
+			broken.Extends = "zbrokenold"
+		} else {
+			broken.Extends = "zotherold"
+			f.chords = append([]userChord{{Name: "Zother", Display: "zotherold", Extends: "zbrokenold", Attrs: []string{f.attrs[0].Name}}}, append(f.chords, userChord{Name: "Zother", Display: "zothernew", Attrs: []string{f.attrs[0].Name}})...)
+		}
 	case "tail1", "tail2", "tail3":
 		// the broken chord is not part of the cycle, it only leads into one
 		n := int(kind[4] - '0')
